@@ -293,6 +293,40 @@ def _zero_priced_side_of_a_quote(c):
                  EQ(pf.cash, 100000.0 - want * qty - fee)), props=['C05'])
 
 
+def _order_of_nothing_is_executed_once(c):
+    """(native only) an order of quantity exactly 0 submitted between a buy and a sell is not dropped: one update in exchange hours
+       executes all three once (the sell first), books one transaction each and leaves the queue empty"""
+    import pandas as pd
+    from qstrader.broker.simulated_broker import SimulatedBroker
+    from qstrader.broker.fee_model.zero_fee_model import ZeroFeeModel
+    from qstrader.execution.order import Order
+    t0 = pd.Timestamp('2020-01-06 15:00:00', tz='UTC')
+
+    class DH:
+        def get_asset_latest_bid_ask_price(self, dt, asset):
+            return (10.0, 10.5)
+
+        def get_asset_latest_mid_price(self, dt, asset):
+            return 10.25
+
+    class EX:
+        def is_open_at_datetime(self, dt):
+            return True
+    b = SimulatedBroker(t0, EX(), DH(), initial_funds=100000.0, fee_model=ZeroFeeModel())
+    b.create_portfolio('p1', 'x')
+    b.subscribe_funds_to_portfolio('p1', 100000.0)
+    pf = b.portfolios['p1']
+    seen = []
+    real = pf.transact_asset
+    pf.transact_asset = lambda txn: (seen.append((txn.asset, txn.quantity)), real(txn))[1]
+    for asset, q in (('EQ:A', 20), ('EQ:B', 0), ('EQ:C', -30)):
+        b.submit_order('p1', Order(t0, asset, q))
+    r, _ = outcome(lambda: b.update(t0))
+    c.ob('order-of-quantity-zero/every-pending-order-executed-once-sell-first-queue-empty',
+         AND(r == 'ok', seen == [('EQ:C', -30), ('EQ:A', 20), ('EQ:B', 0)], b.open_orders['p1'].empty(),
+             EQ(pf.cash, 100000.0 - 20 * 10.5 + 30 * 10.0)), props=['C04'])
+
+
 def _net_zero_book_is_marked(c):
     """(native only) a long/short book whose market value nets to exactly zero is still marked at the new prices"""
     import pandas as pd
@@ -1069,6 +1103,7 @@ def br_update_conc(c):
     """the same clauses evaluated natively on a REAL broker (two portfolios, two assets, real queues and orders)"""
     import traceback as _tb
     _net_zero_book_is_marked(c)
+    _order_of_nothing_is_executed_once(c)
     p0, p1, a0, a1 = c.key('p0'), c.key('p1'), c.key('a0'), c.key('a1')
     W = RealWorld(c, [p0, p1], [a0, a1])
     b = W.b
